@@ -429,7 +429,7 @@ def run(chk, tier, seed):
     exe = netsim.build()
     rng = random.Random(seed)
     # 1. exhaustive model checking (small caches)
-    model_check(chk, "n1r2", dict(N=1, SndTo=1, RcvTo=1, ConTo=1, MaxReq=1, R=2), (2, 2, 2), 900)
+    model_check(chk, "n1r2", dict(N=1, SndTo=1, RcvTo=1, ConTo=1, MaxReq=1, R=2), (1, 2, 2) if tier == "quick" else (2, 2, 2), 1500)
     model_check(chk, "http_n1r2", dict(N=1, SndTo=1, RcvTo=1, ConTo=1, MaxReq=1, R=2, Http=True), (2, 2, 2), 900)
     liveness(chk, False); liveness(chk, True)
     if tier == "thorough":
